@@ -13,7 +13,7 @@ EXPLANATION = ('Path and census rules over ln::channelmanager, ln::channel and c
 	'from the completion/event/background sites; an upstream failure is generated only from the frozen set of callers (never directly '
 	'from update_fail_htlc), and the channel hands HTLCs to fail upstream only from revoke_and_ack (removal irrevocable), holding-cell '
 	'drops or closure; the monitor fails HTLCs back on chain only from matured events, a confirmed funding spend, or the closed-channel '
-	'near-expiry rule; forwarding admission enforces fee and CLTV-delta inequalities. Decides these shapes for all paths; balance '
+	'near-expiry rule; forwarding admission enforces fee and CLTV-delta inequalities. Also: HTLCs to fail / forward collected while freeing the holding cell or resuming a channel are returned at every exit; a confirmed holder commitment is compared with its own (previous vs current) HTLC data before HTLCs missing from it are failed back. Decides these shapes for all paths; balance '
 	'arithmetic and the firing of completion actions under every schedule are not decided.')
 ASSUMPTIONS = ['messages from one peer are processed serially (documented LDK invariant)', 'arithmetic of fee computation is not verified beyond the comparison shapes']
 
